@@ -5,10 +5,12 @@ from xvlib import log
 from props.common import *
 import props.reclcommon as rc
 
-LEVEL = 'exploration'
 def harnesses(tier):
-    return rc.harnesses(tier)
+    return rc.harnesses(tier) + [('tbl', (), False, '')]
 HARNESSES = harnesses('quick')
+THEOREM_NOTES = {
+    'scope': 'the theorems are about the record list every reclaimer shares (thread_block_list: acquire_entry / acquire_inactive_entry / activate / release_entry), for any number of threads, programs and schedules: exclusive ownership, records never removed or duplicated, number of records <= peak number of threads that were registering or registered at the same time (the stronger bounds are refuted by a concrete schedule that was replayed on the real code), reuse, solo termination of acquire in 2*records+5 steps; what each reclaimer does with its record (retire lists, hand-over at exit) is covered by the search with the C01/C02 oracles and the growth measurement',
+}
 ASSUMPTIONS = [
     'generations of threads are logical threads with short programs whose lifetimes are arranged by the schedule: strictly sequential generations (peak = 1 live thread) and overlapping ones',
     'bookkeeping is measured as the number of live heap blocks allocated by logical threads after the final flush (retired nodes are all reclaimed then, so what is left are thread control blocks / slot blocks); for sequential generations with identical generations it must not grow between 6 and 12 generations (3 generations are reported as warm-up)',
@@ -16,6 +18,7 @@ ASSUMPTIONS = [
 ]
 def replay(sig, V, wd):
     hs = X.build_harnesses(rc.harnesses('thorough'))
+    hs.update(X.build_harnesses([('tbl', (), False, '')]))
     (st, det), out = X.replay_case(hs[sig.get('harness', 'recl_hp')][0], sig['case'], wd, ('--trace',))
     print(out[-3000:]); print('REPLAY status=%d %s' % (st, det))
     return 1 if st != 0 else 0
@@ -40,16 +43,42 @@ def sequential_case(rng, K, G, prog=None):
     txt += 'prefix ' + ' '.join('%d 1000000' % (t + 1) for t in range(G)) + '\n'
     return txt
 
+def tbl_program(rng, nthreads):
+    prog = []
+    for _ in range(nthreads):
+        ops = []
+        for g in range(rng.randint(2, 4)):
+            r = rng.random()
+            if r < 0.55: ops += ['acq', 'rel']
+            elif r < 0.85: ops += ['acqi', 'act', 'rel']
+            else: ops += ['acqi', 'rel']
+        if rng.random() < 0.3: ops.append('acq')   # keep the last record
+        prog.append(ops)
+    return prog
+
 def run(ctx):
     rng, tier = ctx['rng'], ctx['tier']
     thorough = tier == 'thorough'
     n = 1200 if thorough else 150
     growth = {}
+    # ---- the record list model (Model/TblDefs.v): trace correspondence + search with the list oracles of h_tbl
+    Htbl = ctx['H'].pop('tbl')
+    fixed = [[['acq', 'rel', 'acq', 'rel'], ['acq', 'rel']], [['acq'], ['acq', 'rel'], ['acq']], [['acqi', 'act', 'rel'], ['acq', 'rel', 'acqi', 'rel'], ['acq']]]
+    cases = [({}, p) for p in fixed] + [({}, tbl_program(rng, 2 + k % 3)) for k in range(10 if thorough else 5)]
+    st = do_correspondence(ctx, 'tbl', Htbl, cases, 12 if thorough else 6, 'thread_block_list')
+    tie = tie_broken_sig(st, 'tbl')
+    do_search(ctx, Htbl, [({}, tbl_program(rng, 3 + k % 2), strat, n * 2, ctx['seed'] + k, extra) for k in range(3) for strat, extra in (('random', ()), ('pct', ('--depth', '3')))], 'tbl', classify=lambda c, h, f: {'harness': 'tbl'})
     for name, H in sorted(ctx['H'].items()):
         K = rc.K_of(name)
         # ---- sequential generations: G vs 2G
         counts = {}
+        worst_prog = None
         progs = [gen_thread(rng, K) for _ in range(4 if thorough else 2)]
+        # every generation also holds as many guards at once as the strategy allows (dynamic strategies: more than the initial
+        # block, so that every generation needs the extra slot blocks of the record it adopts)
+        many = 3 if K is None else min(K, 3)
+        if many >= 1 and K != 1:
+            progs.append(['hold %d %d' % (i % 2, i) for i in range(many)] + ['read 0', 'repl 1'] + ['drop %d' % i for i in range(many)])
         for G in (3, 6, 12):
             worst = 0
             for prog in progs:
@@ -59,12 +88,13 @@ def run(ctx):
                     report_impl(ctx, st, det, txt, {'harness': name})
                 m = re.search(r'FINAL threadblocks (\d+)', out)
                 if m:
+                    if int(m.group(1)) > worst and G == 12: worst_prog = prog
                     worst = max(worst, int(m.group(1)))
             counts[G] = worst
         growth[name] = counts
-        ctx['cov']['evaluations'] = ctx['cov'].get('evaluations', 0) + 3 * (4 if thorough else 2)
+        ctx['cov']['evaluations'] = ctx['cov'].get('evaluations', 0) + 3 * len(progs)
         if counts[12] > counts[6]:
-            txt = sequential_case(rng, K, 12)
+            txt = sequential_case(rng, K, 12, worst_prog)
             ctx['V'].report({'kind': 'oracle', 'detail': 'per-thread bookkeeping grows with the number of threads ever created although only one thread is alive at a time: %s live blocks after 3/6/12 sequential generations (%s)' % (counts, name), 'case': txt, 'harness': name})
         # ---- overlapping generations with the C01/C02 oracles
         jobs = []
@@ -78,4 +108,4 @@ def run(ctx):
         jobs.append((cfg, [hold, ['read 0'] * 3, ['repl 0'], ['repl 0']], 'phase3', 300, ctx['seed'], ()))
         do_search(ctx, H, jobs, name, classify=lambda c, h, f, name=name: {'harness': name})
     ctx['cov']['bookkeeping_blocks_after_3_6_12_sequential_generations'] = growth
-    return None
+    return tie
